@@ -10,6 +10,7 @@ require (
 	github.com/golang/snappy v1.0.0
 	github.com/ipfs/go-cid v0.6.2
 	github.com/multiformats/go-multibase v0.3.0
+	go.uber.org/mock v0.6.0
 	go.uber.org/zap v1.28.0
 	google.golang.org/protobuf v1.36.11
 	storj.io/drpc v1.0.0
